@@ -180,7 +180,7 @@ class MainRun:
     __slots__ = ("code", "exc", "stdout", "stderr", "argv")
 
 
-def run_main(argv, cwd=None, cfgdir=None, order=None):
+def run_main(argv, cwd=None, cfgdir=None, order=None, tilde=False):
     """cminx.main(argv) in-process with cwd, user config dir and directory-listing order controlled."""
     use_repo_source()
     import cminx
@@ -195,6 +195,10 @@ def run_main(argv, cwd=None, cfgdir=None, order=None):
     os.environ["CMINXDIR"] = cfgdir
     os.environ["HOME"] = cfgdir
     os.environ["XDG_CONFIG_HOME"] = cfgdir
+    if tilde:
+        # the same directory, spelled relative to the home directory
+        os.environ["HOME"] = os.path.dirname(cfgdir)
+        os.environ["CMINXDIR"] = "~/" + os.path.basename(cfgdir)
     root = logging.getLogger()
     saved_root = (list(root.handlers), root.level)
     try:
